@@ -10,10 +10,12 @@ VIOLATION.  Flags:
   K2  CER/DER: a present OPTIONAL component whose constructed encoding has empty contents is omitted
   K3  CER/DER SET ordering compares tag lists starting at the innermost tag
   K4  CER BIT STRING segments carry 1000 data octets (1001 contents octets); primitive up to 1001
+  K11 an ABSENT OPTIONAL component whose type is a SEQUENCE/SET without mandatory members is encoded as an
+      empty SEQUENCE/SET (the placeholder instantiated while iterating is a value as soon as nothing is required)
 """
 from . import x690 as M
 
-ALL = ('K1', 'K2', 'K3', 'K4')
+ALL = ('K1', 'K2', 'K3', 'K4', 'K11')
 NO_INDEF = ('BOOL', 'INT', 'ENUM', 'NULL', 'OID', 'REAL')
 
 
@@ -78,55 +80,95 @@ def inner_key(T, v, static):
     return [(M.CLS_BITS[c], n) for c, n in reversed(M.tag_stack(T))]
 
 
+def all_optional_record(T):
+    b = M.base_of(T)
+    return b[0] in ('SEQ', 'SET') and all(f[2] != 'R' for f in b[1])
+
+
 class EmuEncoder(M.Encoder):
     def __init__(self, policy, flags, codec):
         M.Encoder.__init__(self, policy)
         self.flags = flags
         self.codec = codec
+        self.ine = False        # pyasn1's 'ifNotEmpty' option as seen by the element being encoded
+
+    def k2(self):
+        return 'K2' in self.flags and self.codec in ('cer', 'der')
 
     def explicit(self, tag, inner, content):
         if 'K1' in self.flags and self.p.indefinite('explicit'):
             b = M.strip_con(inner)
-            while b[0] == 'TAG' and b[1] == 'I':
+            while b[0] == 'TAG':
                 b = M.strip_con(b[4])
-            if b[0] in NO_INDEF or (b[0] == 'TAG' and self._k1_inner_definite(b)):
+            if b[0] in NO_INDEF:
                 cls, num = tag
                 return M.ident_octets(cls, True, num) + M.length_octets(len(content)) + content + M.EOO
         return M.Encoder.explicit(self, tag, inner, content)
 
-    def _k1_inner_definite(self, b):
-        # explicit over explicit over a non-indefinite primitive: every wrapper is affected
-        while b[0] == 'TAG':
-            b = M.strip_con(b[4])
-        return b[0] in NO_INDEF
-
-    def omit_member(self, ft, opt, cv, encoding):
-        if 'K2' in self.flags and self.codec in ('cer', 'der') and opt == 'O':
-            try:
-                node = M.parse_node(encoding, 0, len(encoding))
-            except M.ReadError:
-                return False
-            if node.constructed and not node.content and M.base_of(ft)[0] in ('SEQ', 'SET', 'SEQOF', 'SETOF'):
-                return True
-        return False
-
     def enc(self, T, v, outer=None):
-        if T[0] == 'SET' and 'K3' in self.flags and self.codec in ('cer', 'der'):
+        T0 = T
+        k = T[0]
+        if k == 'CON':
+            return self.enc(T[2], v, outer)
+        if k == 'TAG':
+            _, mode, cls, num, inner = T
+            me = outer or (cls, num)
+            if mode == 'E' or M.is_untagged(inner):
+                content = self.enc(inner, v)
+                if self.k2() and self.ine and content == b'' and M.base_of(inner)[0] in ('SEQ', 'SET', 'SEQOF', 'SETOF'):
+                    return b''       # the base encoding was dropped before any tag was added
+                return self.explicit(me, inner, content)
+            return self.enc(inner, v, me)
+        if k in ('SEQ', 'SET'):
             tag = outer or M.univ_tag(T)
+            entry_ine = self.ine
             mem = []
             for name, ft, opt, dflt in T[1]:
                 if name not in v:
-                    continue
-                cv = v[name]
+                    if 'K11' in self.flags and opt == 'O' and all_optional_record(ft):
+                        cv = {}
+                    else:
+                        continue
+                else:
+                    cv = v[name]
                 if opt == 'D' and M.values_equal(ft, cv, M.thaw(dflt)):
                     continue
+                if self.k2():
+                    self.ine = (opt == 'O')      # options.update(ifNotEmpty=namedType.isOptional)
                 e = self.enc(ft, cv)
-                if self.omit_member(ft, opt, cv, e):
-                    continue
-                mem.append((inner_key(ft, cv, self.codec == 'cer'), e))
-            order = sorted(range(len(mem)), key=lambda i: mem[i][0])
-            return self.tlv(tag, True, b''.join(mem[i][1] for i in order))
-        return M.Encoder.enc(self, T, v, outer)
+                if k == 'SET' and 'K3' in self.flags and self.codec in ('cer', 'der'):
+                    key = inner_key(ft, cv, self.codec == 'cer')
+                elif k == 'SET':
+                    key = self.sort_tag(ft, cv, True)
+                else:
+                    key = None
+                mem.append((key, e))
+            # NB: pyasn1 mutates the shared options dict, so the flag set for the LAST component stays
+            # visible to the caller's later siblings only through its own update; at this level the
+            # emptiness test uses the value the element was entered with
+            self.ine = entry_ine
+            if k == 'SET':
+                if 'K3' in self.flags and self.codec in ('cer', 'der'):
+                    order = sorted(range(len(mem)), key=lambda i: mem[i][0])
+                else:
+                    order = self.p.set_order([(mem[i][0], i) for i in range(len(mem))])
+                content = b''.join(mem[i][1] for i in order)
+            else:
+                content = b''.join(e for _, e in mem)
+            if self.k2() and entry_ine and content == b'':
+                return b''
+            return self.tlv(tag, True, content)
+        if k in ('SEQOF', 'SETOF'):
+            tag = outer or M.univ_tag(T)
+            encs = [self.enc(T[1], x) for x in v]        # members inherit the flag
+            if k == 'SETOF':
+                order = self.p.setof_order(encs)
+                encs = [encs[i] for i in order]
+            content = b''.join(encs)
+            if self.k2() and self.ine and content == b'':
+                return b''
+            return self.tlv(tag, True, content)
+        return M.Encoder.enc(self, T0, v, outer)
 
 
 def predict(T, v, codec, flags, defMode=True, chunk=0):
